@@ -92,7 +92,7 @@ def rand_case(rng, cid):
     script += [R(200), R(200), R(200)]
     c = {"kind": "loop", "fam": "random", "api": api, "method": method, "body": body, "u": u, "rc": ma > 0, "maxAttempts": ma,
          "policy": rng.choice(["rec", "rec", "nil"]), "retryIf": rif, "ctx": "live", "maxRedirects": rng.randint(0, 3),
-         "timeoutMs": 250 if timed else 0, "readTimeoutMs": rt, "delayMs": 0, "warm": warm, "mw": rng.randint(1, 3),
+         "timeoutMs": 400 if timed else 0, "readTimeoutMs": rt, "delayMs": 0, "warm": warm, "mw": rng.randint(1, 3),
          "script": script, "d": dict(D0)}
     c["sig"] = sig_of(c)
     c["id"] = cid
@@ -162,6 +162,28 @@ def summarize(recs):
     return marks
 
 
+def describe_unknown(ctx, res):
+    """log the rejected cases that no known finding explains (diagnosis of violations and of flaky cases)"""
+    known = lib.load_known(ctx.pid)
+    shown = 0
+    for trace, bad in res:
+        if not bad or shown >= 5:
+            continue
+        lines = lib.read_lines(trace)
+        for ln in bad:
+            s, e = lib.case_at(lines, ln)
+            c = json.loads(lines[s - 1])
+            ev = json.loads(lines[ln - 1]) if ln - 1 < len(lines) else {"ev": "EOF"}
+            if lib.match_known(known, c, ev) or shown >= 5:
+                continue
+            shown += 1
+            lib.log("unexplained rejection: case %s fam=%s api=%s %s/%s retryIf=%s max=%s warm=%s T=%s R=%s script=%s at %s" % (
+                c.get("id"), c.get("fam"), c.get("api"), c.get("method"), c.get("body"), c.get("retryIf"), c.get("maxAttempts"),
+                c.get("warm"), c.get("timeoutMs"), c.get("readTimeoutMs"),
+                [x["b"] if x["b"] != "resp" else "%d/%s/%s" % (x["status"], x["ka"], x["loc"]["k"]) for x in c.get("script", [])][:8],
+                json.dumps(ev)[:200]))
+
+
 def run(ctx):
     drv = lib.go_build("x02")
     q = ctx.quick
@@ -175,12 +197,18 @@ def run(ctx):
     cases += [rand_case(rng, n + 1 + i) for i in range(nrand)]
 
     chunks = 4 if q else min(lib.NCPU, 12)
-    traces = run_cases(drv, cases, ctx.sub("traces"), chunks, par=16, timeout=900 if q else 3000)
+    # cases that involve the clock (request/read timeouts, sleeping peers) run after the others, on an otherwise idle
+    # process: a stall of a busy scheduler must not eat a 400 ms request timeout
+    timed = [c for c in cases if c["kind"] == "loop" and (c["timeoutMs"] != 0 or c["readTimeoutMs"] != 0)]
+    plain = [c for c in cases if not (c["kind"] == "loop" and (c["timeoutMs"] != 0 or c["readTimeoutMs"] != 0))]
+    traces = run_cases(drv, plain, ctx.sub("traces"), chunks, par=16, timeout=900 if q else 3000)
+    traces += run_cases(drv, timed, ctx.sub("traces_timed"), 2 if q else 4, par=24, timeout=900 if q else 3000)
     nrun = sum(lib.count_cases(t) for t in traces)
     if nrun != len(cases):
         raise lib.Infra("driver ran %d cases of %d" % (nrun, len(cases)))
 
     res = lib.validate(ctx, M, C, traces, timeout=1500, par=chunks)
+    describe_unknown(ctx, res)
     lib.handle_rejections(ctx, res, lambda cl: rerun(ctx, cl))
     if ctx.violations:
         return
@@ -377,7 +405,7 @@ def evidence(ctx, cases, traces, n_enum, q):
         "no TCP; TLS hops are observed as 'the dialer was given a TLS config', no handshake is made",
         "an idle connection is reused when there is one for the address (the connection pool is C10's subject); the vocabulary "
         "never reaches one address under two schemes",
-        "wall clock, generous (DESIGN 2.4): a call with request timeout T=250 ms returns within T+1500 ms and not before T-1 ms when "
+        "wall clock, generous (DESIGN 2.4): a call with request timeout T=400 ms returns within T+1500 ms and not before T-1 ms when "
         "the peer said nothing; a case with a timeout must be rejected in 2 of 3 solitary re-runs to count as a violation",
         "after the request deadline the specification only demands: nothing is sent, the result is a timeout (or the error of a "
         "dial made after the deadline); whether the client still dials or still asks RetryIf is left open",
